@@ -31,6 +31,7 @@ func runC17(c *Ctx) {
 	f := func(n string) *ssa.Function { return p.Func(psPkg + ":" + n) }
 	relayPublish, handlePublish, receivePublish, fanout := f("(*service).relayPublish"), f("(*service).handlePublish"), f("(*service).receivePublish"), f("(*service).fanout")
 	handleSubscribe, onStreamClose := f("(*service).handleSubscribe"), f("(*service).onStreamClose")
+	runC17RecordKept(c, onStreamClose)
 	removeSP, pruneStream, pruneSpace := f("(*service).removeStreamPattern"), f("(*service).pruneStream"), f("(*service).pruneSpace")
 	enqueue := f("(*service).enqueueLocalMatched")
 	verifySig := f("verifySignature")
